@@ -1,13 +1,14 @@
 /- Line-protocol driver for M5c Newton (C16 / C01 / C02).
 
-   newton <maxiter> <tol> <rho> <btMaxiter> <bt 0/1> <btStart> <c1> <empty 0/1> <timeAt|-> <zeroSafe 0/1> <norms> <linOk>
+   newton <maxiter> <tol> <rho> <btMaxiter> <bt 0/1> <btStart> <c1> <empty 0/1> <timeAt|-> <norms> <linOk>
      tol, rho, c1 : exact rationals p/q (the doubles the solver uses)
      norms : comma separated p/q or `nan`, in the order `model.evaluate_residuals()` was called, or `-`
      linOk : one digit per outer iteration (1 = spsolve succeeded, 0 = MatrixRankWarning), or `-` (missing = succeeded)
-   ->  <converged|error|crash> <msg> <iter> evals=<n> given=<m> small=<yes|no|na>
+   ->  <converged|error|crash> <msg> <iter> evals=<n> given=<m> small=<yes|no|na> interp=<same|DIFFERS>
 
    `small` = the model-side statement of `newton_converged_implies_small_residual` evaluated on the final state. -/
 import WntrModel.Model.Newton
+import WntrModel.Gen.NewtonShape
 open Wntr.Newton
 
 def parseRat (s : String) : Option Rat :=
@@ -32,19 +33,20 @@ def msgName : Msg → String
 
 def handle (line : String) : String :=
   match line.trimAscii.toString.splitOn " " with
-  | ["newton", mi, tol, rho, bm, bt, bs, c1, em, ta, zs, norms, lin] =>
+  | ["newton", mi, tol, rho, bm, bt, bs, c1, em, ta, norms, lin] =>
     match mi.toNat?, parseRat tol, parseRat rho, bm.toNat?, bs.toNat?, parseRat c1, parseNorms norms, parseBits lin with
     | some mi, some tol, some rho, some bm, some bs, some c1, some norms, some lin =>
-      let o : Opts := { maxiter := mi, tol, rho, btMaxiter := bm, bt := bt == "1", btStartIter := bs, c1, zeroSafe := zs == "1" }
+      let o : Opts := { maxiter := mi, tol, rho, btMaxiter := bm, bt := bt == "1", btStartIter := bs, c1 }
       let t : NTrace := { norms, linOk := lin, timeAt := if ta == "-" then none else ta.toNat? }
       let r := solve (traceWorld t) o (em == "1") 0
+      let g := solveS Gen.solveShape (traceWorld t) o (em == "1") 0   -- the interpreted GENERATED program
+      let same := g.1 == some r.1 && g.2.nEval == r.2.nEval
       let small := match r.1 with
         | .ret .converged _ _ => if em == "1" then "na" else if ltO ((traceWorld t).norm r.2.loaded) (some o.tol) then "yes" else "no"
         | _ => "na"
       match r.1 with
-      | .crash => s!"crash - 0 evals={r.2.nEval} given={norms.length} small={small}"
       | .ret st m k =>
-        s!"{if st == .converged then "converged" else "error"} {msgName m} {k} evals={r.2.nEval} given={norms.length} small={small}"
+        s!"{if st == .converged then "converged" else "error"} {msgName m} {k} evals={r.2.nEval} given={norms.length} small={small} interp={if same then "same" else "DIFFERS"}"
     | _, _, _, _, _, _, _, _ => "bad-op"
   | _ => "bad-op"
 
